@@ -229,9 +229,9 @@ def do_read(c, td):
             r = np.rint(f)
             if np.abs(f - r).max() > 1e-3:
                 R["wf"] = "fractional coordinate not as written (residual %.3g)" % float(np.abs(f - r).max())
-            if (f < -1e-9).any() or (f > 80 + 1e-9).any():
+            if (f < -1e-6).any() or (f > 80 - 1e-6).any():          # wrapped means 0 <= fraction < 1
                 R["wf"] = "fractional coordinate outside the cell"
-            R["pos"] = (r.astype(int) % 80).tolist()
+            R["pos"] = r.astype(int).tolist()
         R["bonds"] = [[int(x) for x in t] for t in np.array(a.bonds).reshape(-1, 2)] if len(a.bonds) else []
         if not np.array_equal(np.array(a.positions), np.array(b.positions)) or [str(e) for e in b.elements] != R["els"]:
             R["wf"] = "path and file object differ"
